@@ -5,6 +5,7 @@ import (
 	"fmt"
 	"regexp"
 	"strings"
+	"time"
 
 	log "github.com/go-spring/log"
 	"github.com/go-spring/log/verifsim"
@@ -38,6 +39,9 @@ type AsyncScn struct {
 	Separate   bool      `json:"separate,omitempty"` // RollingFile kind
 	RAsync     bool      `json:"rolling_async,omitempty"`
 	Style      Style     `json:"style"`
+	Clock      []int     `json:"clock,omitempty"`     // simulated time the scheduler may let pass, in ms per decision
+	RotMs      int       `json:"rotation_ms,omitempty"` // RollingFile kind: rotation interval
+	Cycle      bool      `json:"cycle,omitempty"`     // C12: Refresh, Destroy, Refresh again; the handle of the first life is used
 	Handles    int       `json:"handles,omitempty"` // C12: extra GetLogger calls for the same name
 	BadHandle  bool      `json:"bad_handle,omitempty"`
 }
@@ -350,4 +354,17 @@ func (sys *asyncSys) accepted(sb *Sub) bool {
 // wants reports whether reference i must receive the submission if it is delivered.
 func (sys *asyncSys) wants(i int, sb *Sub) bool {
 	return sb.Raw || sys.refRanges[i].has(sb.Code)
+}
+
+// clockEnvMs lets the scheduler advance the simulated clock by the listed
+// amounts, one per decision (a timeout hidden in a "wait for space" or a
+// rotation boundary only shows when time actually passes).
+func clockEnvMs(x *Exec, moves []int) {
+	idx := 0
+	x.Sim.AddEnv(&verifsim.EnvAction{Name: "time-passes", Enabled: func() bool { return idx < len(moves) }, Run: func() {
+		d := moves[idx]
+		idx++
+		x.Sim.Probe("clock_advanced")
+		x.Sim.Advance(time.Duration(d) * time.Millisecond)
+	}})
 }
